@@ -326,7 +326,8 @@ ApplyEv(o, e) ==
          IN [o EXCEPT !.step = [a |-> e.a, kind |-> IF Has(e, "kind") THEN e.kind ELSE "", from |-> IF Has(e, "from") THEN e.from ELSE "",
                                  sid |-> sid, sent |-> {}, fresh |-> isMsg /\ e.msg.sid \in {"new", ""},
                                  msg |-> IF isMsg THEN e.msg ELSE NoStep.msg,
-                                 busy |-> \E a \in o.act : a.nscid = nscid,
+                                 \* the channel is busy if a registered swap or a stored unfinished swap (not yet restored after a restart) uses it
+                                 busy |-> (\E a \in o.act : a.nscid = nscid) \/ (\E d \in o.disk : d.cur \notin Terminal /\ d.cur # "" /\ d.nscid = nscid),
                                  known |-> isMsg /\ sid \in DOMAIN o.rec /\ e.msg.sid \notin {"new", ""},
                                  res |-> "", to |-> IF Has(e, "to") THEN e.to ELSE "", scid |-> nscid],
                        !.faults = @ \/ Has(e, "faults"),
